@@ -205,6 +205,15 @@ def run(tier, seed):
         vkit.log("[C43] %s: %d histories" % (g["name"], len(hists)))
         scen = [{"cfg": {"nc": c["NC"], "contents": CONTENTS}, "h": strip_obs(h)} for h in hists]
         raw_outs = vkit.run_driver(exe, scen, timeout=900)
+        # environment failures of the scenario set-up (no port) are retried, never compared
+        bad = [i for i, o in enumerate(raw_outs) if isinstance(o, dict) and o.get("err")]
+        if bad:
+            again = vkit.run_driver(exe, [scen[i] for i in bad], shards=1, timeout=900)
+            for i, o in zip(bad, again):
+                if isinstance(o, dict) and o.get("err"):
+                    raise vkit.InfraError("scenario set-up failed twice: %s" % o.get("err"))
+                raw_outs[i] = o
+            chk.cov["setup_retries"] = chk.cov.get("setup_retries", 0) + len(bad)
         outs = [translate(h, o) for h, o in zip(hists, raw_outs)]
         fails = vkit.compare_histories(hists, outs)
         chk.cov["traces_validated_against_impl"] += len(hists)
